@@ -145,7 +145,7 @@ theorem C03_client_neg (cm : List (String × Mech)) (adv : List String) (peer : 
     (h : (clientNeg cm adv peer).authn = true) :
     0 < (clientNeg cm adv peer).consumed ∧ (clientNeg cm adv peer).consumed ≤ peer.length ∧
     (∀ e ∈ peer.take (clientNeg cm adv peer).consumed,
-      e ≠ .failure ∧ e ≠ .other ∧ e ≠ .otherNs ∧ e ≠ .space ∧
+      (∀ b, e ≠ .failure b) ∧ e ≠ .other ∧ e ≠ .otherNs ∧ e ≠ .space ∧
       (∀ p, e = .challenge p ∨ e = .success p → p.decodeClient ≠ none)) ∧
     (∀ i p, peer[i]? = some (.success p) → i < (clientNeg cm adv peer).consumed →
       i + 1 = (clientNeg cm adv peer).consumed) ∧
@@ -185,6 +185,29 @@ theorem C03_client_neg (cm : List (String × Mech)) (adv : List String) (peer : 
   · intro q hq
     rw [hget (pre.length + 1 - 1) (by omega)] at hq
     simp at hq
+
+/-- **`<failure/>` is a failure whatever it contains.**  An element named `failure` in the
+SASL namespace — with a defined condition, with none, with an unknown one, with only a
+`<text/>`, with several, with one in a foreign namespace, or with content that is not even
+well-formed — ends the exchange with an error and without the `Authn` bit, both while the
+mechanism still runs and when it has already completed (PLAIN after its initial response);
+and an authenticated exchange has read no such element. -/
+theorem C03_client_failure_any_content (mech : Mech) (hist : List Bytes) (b : FailBody) (rest : List CEv) :
+    (readFinal hist (.failure b :: rest)).authn = false ∧ (readFinal hist (.failure b :: rest)).err ≠ .none ∧
+    (clientLoop mech hist (.failure b :: rest)).authn = false ∧
+    (clientLoop mech hist (.failure b :: rest)).err ≠ .none := by
+  cases b <;> simp [readFinal, clientLoop, fail, failErr]
+
+theorem C03_client_failure_never_read (cm : List (String × Mech)) (adv : List String) (peer : List CEv)
+    (h : (clientNeg cm adv peer).authn = true) (i : Nat) (b : FailBody)
+    (hi : peer[i]? = some (.failure b)) : (clientNeg cm adv peer).consumed ≤ i := by
+  obtain ⟨_, _, hall, _, _⟩ := C03_client_neg cm adv peer h
+  apply Nat.le_of_not_lt
+  intro hlt
+  have hm : CEv.failure b ∈ peer.take (clientNeg cm adv peer).consumed := by
+    apply List.mem_of_getElem? (i := i)
+    rw [List.getElem?_take]; simp [hlt, hi]
+  exact (hall _ hm).1 b rfl
 
 /-- **Mechanism selection.**  The mechanism selected is the first one of the client's list
 whose name the receiver advertised: it is in both lists, and no earlier entry of the client's
